@@ -2145,7 +2145,9 @@ pub fn apply_bug(s: &mut SpriteSpec, bug: &str, r: &mut Rng, scale: usize) -> St
                 ud: None,
                 extra: false,
             };
-            let variant = r.below(4);
+            // the pattern is part of the scenario's size parameter (scale mod 4), so that a job
+            // lists every pattern explicitly instead of hoping to draw it
+            let variant = (scale % 4) as u64;
             match variant {
                 0 => {
                     // forward chain: k -> k+1, last raw
